@@ -117,7 +117,7 @@ def plan(seed, tier="quick", index=0):
     nsign = rng.choice([1, 2, 2, 3, 4])
     classes = ["one", "n-1", "small", "small", "high", "random", "random", "random"]
     signers = [hex(_key(rng, rng.choice(classes))) for _ in range(nsign)]
-    msgs = [rng.getrandbits(8 * l).to_bytes(l, "big").hex() if l else "" for l in [rng.choice([0, 1, 32, 33, 100]) for _ in range(3)]]
+    msgs = [rng.getrandbits(8 * l).to_bytes(l, "big").hex() if l else "" for l in [rng.choice([0, 1, 32, 33, 100, 51, 52, 55, 56, 59, 60, 63, 64, 119, 120, 1000]) for _ in range(3)]]
     if nsign < 4 and rng.random() < 0.3:
         # a key and its negation share the x coordinate of their public keys
         signers.append(hex(N - int(rng.choice(signers), 16)))
